@@ -1380,6 +1380,7 @@ class WBEMListener:
             daemon=False)
         self._callback_thread.start()
 
+        server = None
         try:
             if self._http_port:
                 if not self._http_server:
@@ -1433,6 +1434,9 @@ class WBEMListener:
                             ListenerRequestHandler)
                     except OSError as exc:
                         # Note: socket.gaierror is derived from OSError
+                        # The HTTP listener thread may already be running, so
+                        # it needs to be stopped before stopping the delivery.
+                        self._stop_listener_threads()
                         self._stop_indication_delivery()
                         if getattr(exc, 'errno', None) == errno.EADDRINUSE:
                             # Windows does not raise exception if port is used
@@ -1523,7 +1527,15 @@ class WBEMListener:
         except Exception as exc:  # pylint: disable=broad-exception-caught
             self.logger.error("Cleaning up callback thread due to exception "
                               "%s: %s", exc.__class__.__name__, exc)
-            self._stop_indication_delivery(immediate=True)
+            # Free the port of a server that was created but not yet started
+            if server is not None and server is not self._http_server \
+                    and server is not self._https_server:
+                server.server_close()
+            # Stop listener threads that were already started, so that no
+            # indications are accepted that could not be delivered anymore,
+            # and deliver those that have already been acknowledged.
+            self._stop_listener_threads()
+            self._stop_indication_delivery()
             raise
 
     def stop(self):
